@@ -55,7 +55,7 @@ ImageOK == \E c \in {CycleK(kv, Ev.open.f, final)} :
   /\ SameProj(Ev.after, c.kv, c.f)
   /\ CanonReadableIn(c.kv, c.f)
   /\ (Ev.gates # <<>>) = CanCopyIn(kv, Ev.open.f, final)
-  \* TODO-KNOWN-FINDING (C25-F1): after the interrupted cycle and one further complete cycle, blocks at frozen
+  \* KNOWN-FINDING (tolerated only through ctx.known_finding in the check) (C25-F1): after the interrupted cycle and one further complete cycle, blocks at frozen
   \* heights are still stored in the key-value store (nothing revisits them) - reported, not rejected
   /\ (LeakIn(c.kv, c.f) # {} => PrintT(<<"PENDING", ToJson([line |-> l, finding |-> "C25-F1", gate |-> Ev.k, left |-> Cardinality(LeakIn(c.kv, c.f))])>>))
 TCrashOpen == Step_(Ev.op = "crashopen" /\ ImageOK /\ UNCHANGED vars)
